@@ -9,3 +9,15 @@ pub broadcast axiom fn axiom_vec_u8_ext(a: Vec<u8>, b: Vec<u8>) ensures (#[trigg
 pub broadcast axiom fn axiom_vec_len_bound<T>(v: Vec<T>) ensures #[trigger] v@.len() <= usize::MAX;
 pub assume_specification<T> [<[T] as AsRef<[T]>>::as_ref] (s: &[T]) -> (r: &[T]) ensures r@ == s@;
 pub assume_specification<T, const N: usize> [<Vec<T> as From<[T; N]>>::from] (a: [T; N]) -> (v: Vec<T>) ensures v@ == a@;
+
+/// E15: `X.iter().skip(K).all(CLOSURE)` — ASSUMED [L-STD] semantics of the iterator adapters: the
+/// closure is called only on elements at positions >= K (on none for a shorter slice), the result
+/// is true iff the closure returned true on every one of them
+#[verifier::external_body]
+pub fn iter_skip_all<T, F: Fn(&T) -> bool>(s: &[T], k: usize, f: F) -> (b: bool)
+    requires forall|i: int| #![trigger s@[i]] k <= i < s@.len() ==> f.requires((&s@[i],)),
+    ensures
+        b ==> forall|i: int| #![trigger s@[i]] k <= i < s@.len() ==> f.ensures((&s@[i],), true),
+        !b ==> exists|i: int| #![trigger s@[i]] k <= i < s@.len() && f.ensures((&s@[i],), false),
+{ unimplemented!() }
+
